@@ -358,11 +358,16 @@ def replay(prop, path, out=sys.stdout):
     with open(path) as f:
         rp = json.load(f)
     sc, tape = rp["scenario"], unrle(rp.get("schedule_tape_rle"))
+    trace = bool(os.environ.get("VERIF_TRACE"))
     try:
-        r = mod.execute(sc, tape=tape) if tape is not None else mod.execute(sc)
+        r = mod.execute(sc, tape=tape, keep_events=trace) if tape is not None else mod.execute(sc, keep_events=trace)
     except HarnessError as e:
         print(f"HARNESS-ERROR replay diverged: {e}", file=out)
         return 2
+    if trace and r.stats.get("events"):
+        print("# event log (seq, virtual time or step, actor, kind, detail):", file=out)
+        for ev in r.stats["events"]:
+            print("#   " + repr(ev)[:240], file=out)
     want = rp["expect"]["clause"]
     findings = load_known_findings()
     known = [v for v in r.violations if v["clause"] == want and match_known(findings, prop, v)]
